@@ -195,7 +195,7 @@ func genLen(t *rapid.T) int {
 }
 
 func genStream(t *rapid.T) StreamCase {
-	c := StreamCase{Helper: rapid.SampledFrom([]string{"ReadAtMost", "ReadAtMost", "ReadAll", "CopyData", "CopyN", "CopyN", "NewByteReader", "WriteString"}).Draw(t, "helper"), Len: genLen(t), ReadErrAt: -1, WriteErr: -1, CancelAt: -1}
+	c := StreamCase{Helper: rapid.SampledFrom([]string{"ReadAtMost", "ReadAtMost", "ReadAll", "CopyData", "CopyN", "CopyN", "NewByteReader", "ReaderFrom", "WriteString"}).Draw(t, "helper"), Len: genLen(t), ReadErrAt: -1, WriteErr: -1, CancelAt: -1}
 	l := int64(c.Len)
 	c.Max = rapid.SampledFrom([]int64{-1, 0, 1, l - 1, l, l + 1, 2 * l, l / 2}).Draw(t, "max")
 	c.BufCap = rapid.SampledFrom([]int64{-1, 0, 1, 512, l, l + 1}).Draw(t, "bufcap")
@@ -288,6 +288,11 @@ func checkStream(t ev.T, test string, c StreamCase) {
 			var b bytes.Buffer
 			_, err = io.Copy(&b, safeio.NewContextualReader(ctx, rd))
 			out = b.Bytes()
+		case "ReaderFrom":
+			// a context-aware ReaderFrom around a plain buffer, fed from the scripted source
+			var b bytes.Buffer
+			n, err = safeio.NewContextualReaderFrom(ctx, &b).ReadFrom(rd)
+			out = b.Bytes()
 		case "CopyData":
 			usesWriter = true
 			n, err = safeio.CopyDataWithContext(ctx, rd, wr)
@@ -316,7 +321,7 @@ func checkStream(t ev.T, test string, c StreamCase) {
 	}
 	// error kinds (the bare contextual reader hands out the context's own error: it is an io.Reader, not an operation of
 	// the library that takes a context; only the prefix and no-further-read clauses apply to it)
-	if err != nil && c.Helper != "NewByteReader" {
+	if err != nil && c.Helper != "NewByteReader" && c.Helper != "ReaderFrom" {
 		okKind := commonerrors.Any(err, commonerrors.ErrCancelled, commonerrors.ErrTimeout, commonerrors.ErrEOF, commonerrors.ErrEmpty, errInjectedRead, errInjectedWrite, io.ErrShortWrite, commonerrors.ErrUnexpected)
 		if !okKind {
 			ev.Fail(t, prop, test, c, "%s returned %q: neither a context kind, the EOF kind nor the injected failure", c.Helper, err)
@@ -341,9 +346,9 @@ func checkStream(t ev.T, test string, c StreamCase) {
 			want = want[:c.Max]
 		}
 		fallthrough
-	case "ReadAll", "NewByteReader":
+	case "ReadAll", "NewByteReader", "ReaderFrom":
 		if !faulty && !cancelled {
-			if len(want) == 0 && c.Helper != "NewByteReader" {
+			if len(want) == 0 && c.Helper != "NewByteReader" && c.Helper != "ReaderFrom" {
 				if err == nil && len(out) != 0 {
 					ev.Fail(t, prop, test, c, "%s of nothing returned %d bytes", c.Helper, len(out))
 				}
